@@ -445,11 +445,13 @@ std::string handle_realtime(const JV &req) {
     std::atomic<std::int64_t> accepted{0};
     std::atomic<int> phase{0};
     bool watchdog_ok = true;
+    std::string window_json = "null";
     {
         g_ctx = &ctx;  // make_executor may start nothing, but keep lifecycle events attributable
         auto ex = p.eb->make_executor();
         g_ctx = nullptr;
         const std::int64_t t_start = wall_us();
+        window_json = "[" + jtime(ex.view().start_time()) + "," + jtime(ex.view().end_time()) + "]";
         std::thread runner([&] {
             g_ctx = &ctx;
             try { ex.view().run(); } catch (const std::exception &e) { run_error = err_json("run", e); }
@@ -562,7 +564,7 @@ std::string handle_realtime(const JV &req) {
     emit_trace(out, ctx);
     out += ",\"log\":[";
     for (std::size_t i = 0; i < clog.size(); ++i) { if (i) out += ','; out += clog[i]; }
-    out += "],\"watchdog_ok\":";
+    out += "],\"window\":" + window_json + ",\"watchdog_ok\":";
     out += watchdog_ok ? "true" : "false";
     out += ",\"error\":" + (run_error.empty() ? std::string{"null"} : run_error) + "}";
     return out;
